@@ -16,7 +16,7 @@ use serde_json::{json, Value};
 use std::io::BufReader;
 use std::rc::Rc;
 
-#[global_allocator]
+#[cfg_attr(not(miri), global_allocator)]
 pub static GLOBAL: qalloc::QAlloc = qalloc::QAlloc::new();
 
 pub struct Args {
@@ -61,7 +61,7 @@ fn exec_cmd<K: track::KeyT>(a: &Args) -> exec::Stats {
             + cfg.get("a").and_then(|v| v.as_u64()).unwrap_or(1) + cfg.get("b").and_then(|v| v.as_u64()).unwrap_or(1)),
     };
     let env = sut::Env { hasher: a.get("hasher").unwrap_or("std").to_string(), kh_table: Rc::new(table), default_ctor: a.has("default-ctor") };
-    let fl = exec::Flags { audit: a.has("audit"), tok: a.has("tok"), ro: !a.has("no-ro"), drop_ev: a.has("drop"), clone_ev: a.has("clone"), shuffle: a.num("shuffle", 0), faults: a.has("faults") };
+    let fl = exec::Flags { audit: a.has("audit"), tok: a.has("tok"), ro: !a.has("no-ro"), drop_ev: a.has("drop"), clone_ev: a.has("clone"), shuffle: a.num("shuffle", 0), faults: a.has("faults"), light: a.has("light") };
     let random = a.get("random").map(|s| {
         let p: Vec<u64> = s.split(',').map(|x| x.parse().unwrap()).collect();
         (p[0] as usize, p[1] as usize, p[2])
@@ -80,11 +80,13 @@ fn exec_cmd<K: track::KeyT>(a: &Args) -> exec::Stats {
     };
     let mut input = BufReader::with_capacity(1 << 20, input);
     let mut out = exec::ShardWriter::new(a.get("out").map(|s| s.to_string()), a.num("shard", 0));
+    out.mute = a.has("light");
+    let skip = (a.num("skip-offset", 0), a.num("skip-step", 1));
     let dump_hists = a.get("dump-hists").map(|s| s.to_string());
     let kind = a.get("kind").expect("--kind");
     macro_rules! go {
         ($t:ty) => {
-            exec::run_driver::<K, $t>(cfg, env, nkeys, fl, random, max_states, dump_hists, &mut input, &mut out)
+            exec::run_driver::<K, $t>(cfg, env, nkeys, fl, random, max_states, skip, dump_hists, &mut input, &mut out)
         };
     }
     match kind {
